@@ -299,6 +299,10 @@ pub fn gen_cfg(id: &str, tier: Tier, variant: u64) -> GenCfg {
         }
         "C10" => {
             g.dact_pct = 60;
+            // a destructor may rescue a stored handle to an outsider by cloning it
+            // out (a clone of a peer dying with it must abort: C16, ends the case)
+            g.dact_clone_own = true;
+            g.dact_clone_own_weight = 3;
         }
         "C11" => {
             g.dact_pct = 60;
